@@ -305,7 +305,8 @@ class TracedSampler(Sampler):
                 elif what == 'f_live':
                     self.f_live
                 elif what == 'log_v_live':
-                    if len(self.bounds):
+                    # not one of the accessors C11 lists; defined for the exploration phase only
+                    if len(self.bounds) and not self.explored:
                         self.log_v_live
                 elif what == 'posterior':
                     if len(self.points):
